@@ -110,6 +110,15 @@ class ReduceRegion:
                 blk = getattr(node, field, None)
                 if isinstance(blk, list) and nxt in blk:
                     straight_env(blk, nxt, env)
+        # a name the region itself assigns is loop carried: at the start of an iteration it holds
+        # whatever the *previous* terminal left there, not what was assigned before the loop
+        self.loop_carried = set()
+        for st in self.term_loop.body:
+            for n in ast.walk(st):
+                if isinstance(n, ast.Name) and isinstance(n.ctx, ast.Store) and n.id in env:
+                    self.loop_carried.add(n.id)
+        for name in self.loop_carried:
+            env[name] = N(f"__STALE_{name}")
         self.env = env
         self.body = self.term_loop.body
         self.iter_expr = self.term_loop.iter
